@@ -385,6 +385,71 @@ def run(world, rep, tier, only=None):
         rep.ob("C14.b", site(wbs, "backup superblock checksum set before write"),
                wbs.dominated_by(w, calls_to(wbs, "ext2fs_superblock_csum_set")), "checksum set on each backup copy")
 
+    # ------------------------------------------------------------------ C14.h checksummed bytes are not changed before they are written
+    # A checksum is computed over the object exactly as it goes to disk.  Between the setter call and the write
+    # request nothing may store into the object (nor into a buffer that aliases it): the journal writer escapes a
+    # block that starts with the journal magic *before* the tag checksum is taken, the library writers byte-swap
+    # before they checksum, etc.
+    def _buf_aliases(fn, root):
+        """names through which the bytes of `root` (a pointer variable or bh) can be written in fn"""
+        al = {root}
+        for _r in range(3):
+            for n in fn.events("S"):
+                if T.strip(n.ev["lhs"]).get("k") == "v" and isinstance(n.ev.get("rhs"), dict):
+                    rp = T.path(n.ev["rhs"])
+                    if rp and (rp in al or rp.split("->")[0] in al):
+                        al.add(T.path(n.ev["lhs"]))
+        return al
+
+    def _modifies(fn, n, al):
+        if not n.ev:
+            return False
+        if n.ev["e"] == "S":
+            l = T.strip(n.ev["lhs"])
+            p = T.path(n.ev["lhs"])
+            if p is None:
+                return False
+            # a store *through* the pointer (deref, subscript, member of the pointee), not a re-assignment of it
+            return l.get("k") in ("u", "x", "m") and (p in al or p.split("->")[0] in al) and \
+                not (l.get("k") == "m" and l.get("f") in ("b_blocknr", "b_err", "b_dirty", "b_uptodate"))
+        if n.ev["e"] == "C" and is_call(n, "memcpy", "memset", "memmove", "strncpy", "strcpy"):
+            p = T.path(arg(n, 0))
+            return p is not None and (p in al or p.split("->")[0] in al)
+        return False
+
+    def set_then_write(fn, setters, writes, bufarg, label):
+        nonlocal_count = 0
+        for i, s in enumerate(setters):
+            b = T.path(arg(s, bufarg(s)))
+            if not b:
+                continue
+            al = _buf_aliases(fn, b.split("->")[0])
+            region = fn.reach(fn.after(s), avoid=writes + [x for x in setters if x is not s])
+            tow = fn.reach_back(writes)
+            mods = [n for n in region if n in tow and _modifies(fn, n, al)]
+            rep.ob("C14.h", site(fn, "%s: object unchanged between checksum and write#%d" % (label, i)), not mods,
+                   "stores into `%s` (aliases %s) between %s and the write request: %s" %
+                   (b, sorted(al), T.call_names(s.ev["x"])[0], [(m.line, m.text()[:30]) for m in mods[:3]]))
+            nonlocal_count += 1
+        return nonlocal_count
+    n_h = 0
+    for (file, fname, setter) in WRITERS:
+        fn = prog.fn(fname, file)
+        ss = calls_to(fn, setter)
+        ws = [n for n in fn.call_nodes() if effects.is_write_req(fn, n)]
+        n_h += set_then_write(fn, ss, ws, lambda s: len(s.ev["x"].get("a", [])) - 1, setter)
+    dbg = world.program("debugfs")
+    for f in dbg.fns_in_file("debugfs/do_journal.c"):
+        ss = calls_to(f, "jbd2_block_tag_csum_set", "jbd2_descr_block_csum_set", "jbd2_commit_block_csum_set", "jbd2_revoke_csum_set")
+        if not ss:
+            continue
+        ws = calls_to(f, "ll_rw_block", "mark_buffer_dirty")
+
+        def bufidx(s):
+            return 2 if is_call(s, "jbd2_block_tag_csum_set") else 1
+        n_h += set_then_write(f, ss, ws, bufidx, "journal writer")
+    rep.floor("C14.h checksum-set / write pairs examined", n_h, 8)
+
     # ------------------------------------------------------------------ C14.f CRC tables
     crc_tables(world, rep)
 
